@@ -1,5 +1,7 @@
 //! C11: may::sync::WaitGroup in thread context (det mode)
 //!
+//! The trace contains the hooked accesses to the counter under its lock (`sync.wait_group.count`, filter
+//! `sync/wait_group.rs`) next to the mutex / condvar / blocker events.
 //! Every thread starts with 1-2 handles of one group (cloned before the run), may clone more, drops handles, and
 //! ends by dropping its last handle or by `wait()`ing with it (thread 0 always waits). Oracle (independent of the
 //! model): when a `wait` returns, every other handle has at least started its drop (`outstanding == 0`); every
@@ -122,7 +124,7 @@ pub fn build(rng: &mut Rng, tier: u32) -> Built {
             }
             v
         }),
-        filter: vec!["sync/condvar.rs", "sync/mutex.rs", "sync/blocking.rs"],
+        filter: vec!["sync/condvar.rs", "sync/mutex.rs", "sync/blocking.rs", "sync/wait_group.rs"],
         timeout_permille: 0,
     }
 }
